@@ -533,6 +533,7 @@ func init() {
 			{Name: "json-number-text", N: c04NumN, Run: c04NumText, Exhaustive: true},
 			{Name: "string-token-bytes", N: c04ByteN, Run: c04Bytes, Exhaustive: true},
 			{Name: "lone-surrogates", N: c04SurN, Run: c04Sur, Exhaustive: true},
+			{Name: "escape-window", N: c04EscN, Run: c04Esc, Exhaustive: true},
 		},
 	})
 }
@@ -657,4 +658,57 @@ func c04Sur(c *Ctx, idx int) {
 		c.Report(Violation{Rule: "C04/reinterpreted", Expr: text, Got: fmt.Sprintf("compiles, and the key is %q", key), Want: fmt.Sprintf("a syntax error, or a key that starts with %q and ends with %q (what is written around the lone surrogate)", hd, t.decoded), Features: feats})
 	}
 	c.Nontrivial(text)
+}
+
+// ---- the four characters after \u
+//
+// A \u escape takes exactly four ASCII hex digits.  Decoders that look at bytes, at runes, or at
+// one of them through a conversion of the other, disagree exactly on non-ASCII characters whose low
+// byte happens to be a hex digit (Cyrillic а U+0430, dotless ı U+0131, 😰 U+1F630 ...), on fullwidth
+// and other "digit" characters, and on windows that end inside a character.  Two streams: every
+// sequence of four pieces from a 14-piece alphabet after \u (alone and as the second half of a
+// surrogate pair), and every code point U+0080..U+24FF plus samples of the higher planes at each
+// of the four positions of an otherwise valid escape; quoted identifiers and JSON literals.
+var c04HexPieces = []string{"0", "a", "F", "9", "g", "G", " ", "а", "с", "ı", "Ł", "😰", "é", "０"}
+
+func c04EscN(c *Ctx) int {
+	k := len(c04HexPieces)
+	return k*k*k*k + 4*(0x2500-0x80+64)
+}
+
+func c04Esc(c *Ctx, idx int) {
+	k := len(c04HexPieces)
+	var win string
+	if idx < k*k*k*k {
+		i := idx
+		for j := 0; j < 4; j++ {
+			win += c04HexPieces[i%k]
+			i /= k
+		}
+	} else {
+		i := idx - k*k*k*k
+		pos := i % 4
+		i /= 4
+		var r rune
+		if i < 0x2500-0x80 {
+			r = rune(0x80 + i)
+		} else {
+			r = []rune{0xFF10, 0xFF21, 0xFF41, 0x1D7CE, 0x1F630, 0x10430, 0x3041, 0xFE30, 0xA641, 0x1E030, 0x10FFFF, 0xFFFD, 0xE030, 0x2F831}[(i-(0x2500-0x80))%14]
+			r += rune((i - (0x2500 - 0x80)) / 14)
+		}
+		digits := []string{"0", "0", "4", "1"}
+		digits[pos] = string(r)
+		win = strings.Join(digits, "")
+	}
+	feats := map[string]string{"family": "escape-window"}
+	texts := []string{`"\u` + win + `"`, `"\ud83d\u` + win + `"`, "`\"\\u" + win + "\"`"}
+	if c.Tier == "thorough" {
+		texts = append(texts, `"x\u`+win+`y"`, `{"\u`+win+`": a}`)
+	}
+	for _, t := range texts {
+		pr := c.CheckGrammar(t, feats)
+		if pr.Status != ref.ParseGap {
+			c.Nontrivial(t)
+		}
+	}
 }
